@@ -36,7 +36,8 @@ VALUES = [None, 0, 7, 1.5, True, "", "text é value", b"", b"\x00\xffbinary\x01"
 STATUSES = ["ready", "evaluation", "error", "evaluating parent"]
 ATTR_VALUES = [True, False, "x", "", "y"]
 XOR_CODE = bytes([0x5A, 0x13, 0xC7, 0x2E, 0x91, 0x7F, 0x08])
-CONFIGS = ["no", "mem", "file", "xor", "fernet", "sql", "sqlstr", "scfm", "scnm", "scff", "scnf", "mem+file", "no+mem", "ifhas", "ifhasnot", "attreq", "proxy"]
+# "scfm/" / "scnm/": StoreCache(MemoryStore(), "/cache") - a cache path with a leading slash is the same cache as without it
+CONFIGS = ["no", "mem", "file", "xor", "fernet", "sql", "sqlstr", "scfm", "scnm", "scff", "scnf", "mem+file", "no+mem", "ifhas", "ifhasnot", "attreq", "proxy", "scfm/", "scnm/"]
 EXACT_UNSTABLE = {"mem", "file", "xor", "fernet", "sql", "sqlstr", "mem+file", "no+mem", "proxy", "no"}
 
 
@@ -160,8 +161,8 @@ class Built:
             c = C.SQLCache.from_sqlite()
         elif cfg == "sqlstr":
             c = C.SQLStringCache.from_sqlite()
-        elif cfg in ("scfm", "scnm"):
-            c = C.StoreCache(S.MemoryStore(), "cache", flat=(cfg == "scfm"))
+        elif cfg in ("scfm", "scnm", "scfm/", "scnm/"):
+            c = C.StoreCache(S.MemoryStore(), "/cache" if cfg.endswith("/") else "cache", flat=cfg.startswith("scfm"))
         elif cfg in ("scff", "scnf"):
             c = C.StoreCache(S.FileStore(d()), "cache", flat=(cfg == "scff"))
         elif cfg == "mem+file":
@@ -192,7 +193,7 @@ class Built:
 
 def model_cfg(cfg):
     return {"xor": "xor:" + XOR_CODE.hex(), "ifhas": "ifhas:" + hx("abc"), "ifhasnot": "ifhasnot:" + hx("abc"),
-            "attreq": "attreq:%s:%s" % (hx("abc"), hx("s:x"))}.get(cfg, cfg)
+            "attreq": "attreq:%s:%s" % (hx("abc"), hx("s:x")), "scfm/": "scfm", "scnm/": "scnm"}.get(cfg, cfg)
 
 
 def apply_op(cache, op):
